@@ -85,6 +85,10 @@ func (group *Group) HandleNewRtspSubSessionDescribe(session *rtsp.SubSession) (o
 
 		return true, nil
 	}
+	// the sdp is handed to the session right here (the caller writes it as soon as this returns): the session must
+	// leave its "waiting for a sdp" stage under the group lock, otherwise an input that produces its sdp in this
+	// very moment feeds it a second time from its own goroutine (two DESCRIBE answers, concurrent InitWithSdp)
+	session.Stage.Store(rtsp.SubSessionStageWriteSdp)
 	return true, group.sdpCtx.RawSdp
 }
 
